@@ -41,6 +41,14 @@ INFO = {
             'generated grid with counting oracles (reallocations, relocations, allocator requests)'),
     'C19': ('exploration', 'Comparator-call counting for every key rank of FlatSets of every size up to 300 and around powers of two, every correct hint, and SmallSet inline lookups for every fill.', '3/C19',
             'generated grid with a comparator-call counting oracle'),
+    'C15': ('fault_enumeration', 'Every memory.hpp algorithm x length 0..8 (plus seed-derived longer lengths) x source iterator category x destination kind x element category x every throw index, each built as C++11/14/17/20 so that the emulations and the std:: forwarding are both executed; reference semantics + ledger + canaries.', '3/C15',
+            'bounded-exhaustive enumeration with fault injection at every throw index, 4 language standards'),
+    'C16': ('exploration', 'Differential testing: seed-generated tapes replayed by interpreters built in 8 (quick) / 32 (thorough) build configurations; transcripts must be byte-identical; absence of extras / SmallSet probed at compile time.', '3/C16',
+            'differential testing of generated scripts across build configurations'),
+    'C17': ('exploration', 'A generated matrix of element types and N; the compiler evaluates the static facts, an independent formula derived from the statement predicts them; 4 language standards.', '3/C17',
+            'generated configuration matrix evaluated by the compiler against an independent oracle formula'),
+    'C20': ('exploration', 'Generated multi-threaded reader programs under ThreadSanitizer with result comparison against single-threaded execution. Schedules are sampled, not owned by the harness.', '3/C20',
+            'generated concurrent reader programs under ThreadSanitizer (sampled schedules)'),
 }
 NOTE = 'Trusted base: libstdc++ reference containers, the harness (harness/*.hpp), g++ 12 sanitizers, rapidcheck. Checks rebuild against /repo/include (content hash) on every run.'
 
